@@ -635,6 +635,10 @@ def amount_req(rng, doc):
         return False
     name = rng.choice(["amount.worker.vcpu", "amount.worker.x", "amount.custom", "attr.custom", "v:amount.x", "vv:amount.x", "vv:amount.worker.vcpu", "amount", "amount.", "amount.1x", "Amount.Custom",
                        "amount.a b", "amount." + "a" * 93, "amount." + "a" * 94, "", "amount.job.x", "amount.jobslots", "amount.workers.x", "acme:amount.steps_2", "amount.tasks", "amount.Worker.x", "AMOUNT.JOB.CUSTOM", "vv:amount.Task.x", "amount.STEP.a", "amount.{{Param.Nope}}", "amount.x:y", "vv:ww:amount.x", "amount.x\n", "other.x", "amount.a.b_c.d9"])
+    if rng.random() < 0.2:
+        pr = ensure_param(rng, doc, "STRING")
+        if pr is not None:
+            name = rng.choice(["amount.{{Param.%s}}", "{{Param.%s}}", "amount.worker.{{ RawParam.%s }}"]) % pr["name"]
     a = {"name": name}
     k = rng.random()
     if k < 0.5:
@@ -653,8 +657,14 @@ def attribute_req(rng, doc):
     if h is None:
         return False
     name = rng.choice(["attr.worker.os.family", "attr.worker.cpu.arch", "ATTR.Worker.OS.Family", "attr.custom", "attr.worker.x", "amount.custom", "vv:attr.x", "attr", "attr.task.x", "attr.jobtype", "attr.stepwise.x", "vv:attr.workerpool", "attr.Task.x", "ATTR.STEP.Y", "vv:attr.Job.z", "attr.{{Param.Nope}}"])
+    if rng.random() < 0.25:
+        # a name that is only known when the Job is created (a DEFINED parameter): the values are literal all the same
+        pr = ensure_param(rng, doc, "STRING")
+        if pr is not None:
+            name = rng.choice(["attr.{{Param.%s}}", "{{Param.%s}}", "attr.worker.{{ RawParam.%s }}", "vv:attr.{{Param.%s}}.x"]) % pr["name"]
     a = {"name": name}
-    vals = rng.choice([["linux"], ["linux", "windows"], ["beos"], ["x86_64"], ["v1"], ["9x"], ["a-b_c"], ["a" * 100], ["a" * 101], [""], ["{{Param.Nope}}"], [], ["v"] * 50, ["v"] * 51, ["Linux"], ["a b"]])
+    vals = rng.choice([["not a valid value!"], ["1abc"], ["caf\u00e9"], ["ok", "a" * 101], ["ok_1"], ["{{Param.Nope}}"], ["a.b"]]) if rng.random() < 0.2 else None
+    vals = vals or rng.choice([["linux"], ["linux", "windows"], ["beos"], ["x86_64"], ["v1"], ["9x"], ["a-b_c"], ["a" * 100], ["a" * 101], [""], ["{{Param.Nope}}"], [], ["v"] * 50, ["v"] * 51, ["Linux"], ["a b"]])
     k = rng.random()
     if k < 0.4:
         a["anyOf"] = vals
